@@ -228,7 +228,7 @@ PROP_GROUPS = {
 TIERS = {
     "quick": dict(mc="mc_quick", mc_timeout=240, sim_num=1200, sim_depth=600, sim_timeout=120, rnd_n=400, tp_timeout=300, tc_timeout=300,
                   enum_budget=3, enum_timeout=300),
-    "thorough": dict(mc="mc_thorough", mc_timeout=1500, sim_num=10000, sim_depth=900, sim_timeout=900, rnd_n=4000, tp_timeout=1800, tc_timeout=1800,
+    "thorough": dict(mc="mc_thorough", mc_timeout=600, sim_num=10000, sim_depth=900, sim_timeout=900, rnd_n=4000, tp_timeout=1800, tc_timeout=1800,
                      enum_budget=4, enum_timeout=1800),
 }
 
